@@ -58,7 +58,8 @@ def cases(tier, rng, dist):
         yield c
     for _ in range(N // 2):
         R, Ns = rng.randint(1, 4), rng.randint(1, 4)
-        yield {"f": "rows", "m": [[rng.randint(0, 3) for _ in range(Ns)] for _ in range(R)], "reps": rng.randint(1, 3), "mode": mode(), "aseed": rng.randint(0, 10**9)}
+        yield {"f": "rows", "m": [[rng.randint(0, 3) for _ in range(Ns)] for _ in range(R)], "reps": rng.randint(1, 3), "mode": mode(), "aseed": rng.randint(0, 10**9),
+               "layout": rng.choice(["C", "C", "F", "T", "strided"])}
     for _ in range(N):
         g = gen_strata(rng, dist)
         k = rng.choice([1, 2, 2, 2, 3])
@@ -141,6 +142,13 @@ def run(c):
         return out
     if f == "rows":
         m = np.array(c["m"]); t = Tape(None, chooser_of(c)); outs = []
+        lay = c.get("layout", "C")      # memory layouts a caller may pass: the rows are the rows whatever the strides
+        if lay == "F":
+            m = np.asfortranarray(m)
+        elif lay == "T":
+            m = np.ascontiguousarray(m.T).T
+        elif lay == "strided":
+            big = np.zeros((m.shape[0], 2 * m.shape[1]), dtype=m.dtype); big[:, ::2] = m; m = big[:, ::2]
         m0 = m.copy(); cur = m
         ok = True
         for _ in range(c["reps"]):
